@@ -433,6 +433,56 @@ def getBTotalWithRetry (names : List Name) (cached : Int) : R Int × Int :=
         | none => (.error .atoi, n)
         | some _ => (.ok n, n)
 
+/-! ### the posting path keeps the cached total exact
+
+`ptt.DoPostArticle` (NewPost) appends the new record to `.DIR` (`cmsys.AppendRecord`) and then calls
+`cache.SetBTotal(bid)`, which re-stats `.DIR` and stores its record count — whatever the cached value was
+before (cold 0, exact, or lagging behind because a record reached the file without the cache being told). -/
+
+/-- `cache.SetBTotal` on the count: the record count is stored first; then the last name must be ".d" or
+parsable (last-post time), else the Atoi error is returned (the count stays stored). -/
+def setBTotal (names : List Name) : R Unit × Int :=
+  let n : Int := names.length
+  match names.getLast? with
+  | none => (.ok (), 0)
+  | some last =>
+    if cstr last = [46, 100] then (.ok (), n)
+    else match C13.fnCreateTime last with
+      | none => (.error .atoi, n)
+      | some _ => (.ok (), n)
+
+/-- a record reaches `.DIR` without the cache being told (a poster that dies after `AppendRecord`, a lost
+`Total += 1`): the file grows, the cached total stays. -/
+def appendOnly (names : List Name) (cached : Int) (nm : Name) : List Name × Int := (names ++ [nm], cached)
+
+/-- the index/cache effect of `DoPostArticle` creating the record `nm`: result, new file, new cached total. -/
+def postArticle (names : List Name) (_cached : Int) (nm : Name) : R Unit × List Name × Int :=
+  let names' := names ++ [nm]
+  let (r, c) := setBTotal names'
+  (r, names', c)
+
+/-- the copy of a post into a log board (`doCrosspost` → ALLPOST / NEWIDPOST / ALLHIDPOST / UnAnonymous,
+`crossPostWriteFile` → ALLPOST; after repair 4ca0e38): the copy is appended to that board's `.DIR` and the
+board's total is re-counted with `cache.SetBTotal`.  Only the counts are modelled (the copy's name is a fresh
+stamp, always parsable): record count and cached total of the log board before ↦ after. -/
+def logCopy (logLen : Nat) (_logCached : Int) : Nat × Int := (logLen + 1, ((logLen + 1 : Nat) : Int))
+
+/-- `cache.ReloadBCache` on the totals: every cached total is zeroed (re-counted lazily at the next question). -/
+def reloadTotal (_cached : Int) : Int := 0
+
+/-- `ptt.FindArticleStartIdx` for the newest record of the file, by its own name, with the cached total:
+result and the cached total afterwards. -/
+def findNewest (names : List Name) (cached : Int) (isDesc : Bool) : R Int × Int :=
+  match names.getLast? with
+  | none => (.error .noRecord, cached)
+  | some last =>
+    match C13.fnCreateTime last with
+    | none => (.error .atoi, cached)        -- the caller cannot form the (time, name) cursor
+    | some t =>
+      match getBTotalWithRetry names cached with
+      | (.error e, c) => (.error e, c)
+      | (.ok total, c) => (pttFindStart (names.map absEntry) total t (some (absEntry last).key) isDesc, c)
+
 structure BbsPage where
   start : Int
   isNewest : Bool
